@@ -323,6 +323,15 @@ func checkRequests(r *core.Run, b *genlab.Batch, pr *genlab.Prog, report func(wh
 			m, ok := modOK(s.ModuleID)
 			return svcKey{m.ThriftFilePath, s.ThriftName}, ok
 		}
+		byKey := map[svcKey]string{}
+		for id, s := range req.Services {
+			if k, ok := keyOf(s); ok {
+				if other, dup := byKey[k]; dup {
+					bad(fmt.Sprintf("service %s of %s is described twice (ids %s and %s)", k.name, k.file, other, id), "svc-duplicate")
+				}
+				byKey[k] = id
+			}
+		}
 		for id, s := range req.Services {
 			k, ok := keyOf(s)
 			if !ok {
